@@ -49,7 +49,8 @@ def run(ctx):
     # ... and the self-made schemas of C14 whose group definitions collide under the compiler's merge key (reuse across messages)
     customs = [(comp, 'triage/c13/comp.xml'), (gen.custom_target(os.path.join(tri, 'share.xml'), 'Share', 'SH'), 'triage/c14/share.xml'),
                (gen.custom_target(os.path.join(tri, 'collide.xml'), 'Collide', 'CO'), 'triage/c14/collide.xml'),
-               (gen.custom_target(os.path.join(tri, 'chain.xml'), 'Chain', 'CH'), 'triage/c14/chain.xml')]
+               (gen.custom_target(os.path.join(tri, 'chain.xml'), 'Chain', 'CH'), 'triage/c14/chain.xml'),
+               (gen.custom_fixt_target(os.path.join(tri, 'fixt', 'app.xml'), os.path.join(tri, 'fixt', 'transport.xml'), 'Pair', 'PR'), 'triage/c14/fixt/{app,transport}.xml')]
     gen.generate([t for t, _ in customs])
     for t, label in customs:
         st, m, sc = tv.validate(ctx, t['prefix'], target=t, rid='R13.1', gid='R13.1')
